@@ -62,6 +62,23 @@ func genFmt(t *rapid.T) FmtCase {
 			stmts = append(stmts, st)
 		}
 	}
+	// sizes are not narrowed: once in a while a very long line (around the 64 KiB mark, where
+	// line-oriented readers give up), as a comment, a string or a command
+	if rapid.IntRange(0, 19).Draw(t, "huge") == 0 {
+		n := rapid.IntRange(65520, 65545).Draw(t, "huge_len")
+		long := strings.Repeat("x", n)
+		switch rapid.IntRange(0, 2).Draw(t, "huge_kind") {
+		case 0:
+			stmts = append(stmts, gen.Stmt{Kind: "comment", Text: long})
+		case 1:
+			stmts = append(stmts, gen.Stmt{Kind: "assign", Name: "HUGE", ValKind: "string", ValText: long})
+		default:
+			stmts = append(stmts, gen.Stmt{Kind: "task", Name: "huge", Cmds: []string{"echo " + long}})
+		}
+		if rapid.Bool().Draw(t, "huge_then_more") {
+			stmts = append(stmts, gen.Stmt{Kind: "assign", Name: "AFTER", ValKind: "string", ValText: "tail"})
+		}
+	}
 	return FmtCase{Src: gen.Render(gen.RapidChooser{T: t}, gen.Normalize(stmts))}
 }
 
